@@ -148,14 +148,17 @@ func (c *WebRTCPeer) connect(config *webrtc.Configuration, broker *BrokerChannel
 	// TODO: When go-webrtc is more stable, it's possible that a new
 	// PeerConnection won't need to be re-prepared each time.
 	err := c.preparePeerConnection(config)
+	if err != nil {
+		// c.pc is nil if the PeerConnection itself could not be created.
+		c.eventsLogger.OnNewSnowflakeEvent(event.EventOnOfferCreated{
+			Error: err,
+		})
+		return err
+	}
 	localDescription := c.pc.LocalDescription()
 	c.eventsLogger.OnNewSnowflakeEvent(event.EventOnOfferCreated{
 		WebRTCLocalDescription: localDescription,
-		Error:                  err,
 	})
-	if err != nil {
-		return err
-	}
 
 	answer, err := broker.Negotiate(localDescription)
 	c.eventsLogger.OnNewSnowflakeEvent(event.EventOnBrokerRendezvous{
